@@ -76,6 +76,7 @@ type Job struct {
 	Fail    int         `json:"fail"` // -1: none
 	GetVars []string    `json:"getvars,omitempty"`
 	NoObj   bool        `json:"no_obj,omitempty"` // leave "obj" unbound (C16 contexts with missing variables)
+	NoVars  bool        `json:"no_vars,omitempty"` // bind nothing at all: a new / just reset context
 }
 
 // Obs is what a decode showed.
@@ -192,18 +193,22 @@ func (e *env) runJob(j *Job) (Obs, string, error) {
 	e.freshObjects()
 	ctx := e.ctx
 	ctx.Reset()
-	if !j.NoObj {
+	if !j.NoObj && !j.NoVars {
 		ctx.Set("obj", e.obj, testobj_ins.TestObjectInspector{})
 	}
-	ctx.Set("st", e.st, testobj_ins.TestObjectInspector{})
-	ctx.Set("ts", e.ts, testobj_ins.TestStructInspector{})
+	if !j.NoVars {
+		ctx.Set("st", e.st, testobj_ins.TestObjectInspector{})
+		ctx.Set("ts", e.ts, testobj_ins.TestStructInspector{})
+	}
 	vec := jsonvector.NewVector()
 	if err := vec.Parse([]byte(j.Doc)); err != nil {
 		return o, "", fmt.Errorf("document rejected by jsonvector: %v: %s", err, j.Doc)
 	}
-	ctx.SetVector("jso", vec)
-	for _, s := range j.Statics {
-		ctx.SetStatic(s.Name, s.goValue())
+	if !j.NoVars {
+		ctx.SetVector("jso", vec)
+		for _, s := range j.Statics {
+			ctx.SetStatic(s.Name, s.goValue())
+		}
 	}
 	us := ustate(ctx)
 	us.trace, us.n, us.failAt = nil, 0, j.Fail
@@ -284,17 +289,19 @@ func (c *ICase) coq() string {
 	var jobs []string
 	for i, j := range c.Jobs {
 		vars := []string{}
-		if !j.NoObj {
+		if !j.NoObj && !j.NoVars {
 			vars = append(vars, `(bs "obj", VObj 0 [], InsObj)`)
 		}
-		vars = append(vars, `(bs "st", VObj 1 [], InsObj)`, `(bs "ts", VObj 2 [], InsObj)`)
-		docTerm := "JNull"
-		if j.doc != nil {
-			docTerm = j.doc.coq()
-		}
-		vars = append(vars, `(bs "jso", VNode `+docTerm+`, InsVector)`)
-		for _, s := range j.Statics {
-			vars = append(vars, "("+coqfmt.Str(s.Name)+", "+s.coqVal()+", InsStatic)")
+		if !j.NoVars {
+			vars = append(vars, `(bs "st", VObj 1 [], InsObj)`, `(bs "ts", VObj 2 [], InsObj)`)
+			docTerm := "JNull"
+			if j.doc != nil {
+				docTerm = j.doc.coq()
+			}
+			vars = append(vars, `(bs "jso", VNode `+docTerm+`, InsVector)`)
+			for _, s := range j.Statics {
+				vars = append(vars, "("+coqfmt.Str(s.Name)+", "+s.coqVal()+", InsStatic)")
+			}
 		}
 		fail := "None"
 		if j.Fail >= 0 {
